@@ -415,7 +415,9 @@ def main():
             per.append(len(cases))
             cases.append(c)
         # enclosure sample: spread over classes and dimensions
-        adm = [i for i in per if coq_admissible(name, info, cases[i])]
+        # (interval arithmetic over hundreds of variables does not finish: the many-variable points are judged by the float oracle and
+        #  the T3 float evaluation only)
+        adm = [i for i in per if coq_admissible(name, info, cases[i]) and cases[i]['n'] <= 12]
         want = 5 if hlib.QUICK else 120
         rnd = hlib.rng('c17/enc/' + name)
         chosen = []
